@@ -57,6 +57,28 @@ def extract_table(res):
         open(GEN, "w").write(txt)
     return rows, ""
 
+GEN_READS = os.path.join(C.LEAN, "Gozod", "Gen", "FromReads.lean")
+
+def extract_reads(res):
+    """go/ast translator (harness/cmd/c11/reads.go): which JSON Schema keywords every function of jsonschema/from.go reads;
+    regenerates Gen/FromReads.lean (only when the content changes)."""
+    import json
+    rc, out = C.run(["go", "list", "-m", "-f", "{{.Dir}}", "github.com/kaptinlin/jsonschema"], cwd=C.REPO, env=C.goenv(), timeout=300)
+    libdir = out.strip().split("\n")[-1] if rc == 0 else ""
+    if rc != 0 or not os.path.isdir(libdir): return None, "cannot locate github.com/kaptinlin/jsonschema: " + out[-500:]
+    rc, out = C.run([C.harness_bin("C11"), "-reads", C.REPO, libdir], env=C.goenv(), timeout=120)
+    if rc != 0: return None, "harness -reads failed:\n" + out[-2000:]
+    try: rows = json.loads(out.strip().split("\n")[-1])
+    except Exception as e: return None, "harness -reads: %s\n%s" % (e, out[-500:])
+    q = lambda x: '"%s"' % x
+    txt = ("-- REGENERATED by vlib/c11.py from harness-c11 -reads (go/ast over jsonschema/from.go: the lib.Schema fields each function reads, by JSON keyword name)\n"
+           "namespace Gozod.Gen\n"
+           "def fromReads : List (String × List String) := [\n" +
+           ",\n".join('  (%s, [%s])' % (q(r["func"]), ", ".join(q(k) for k in (r["reads"] or []))) for r in rows) + "]\nend Gozod.Gen\n")
+    if not os.path.exists(GEN_READS) or open(GEN_READS).read() != txt:
+        open(GEN_READS, "w").write(txt)
+    return rows, ""
+
 def expected_silent():
     src = open(os.path.join(C.LEAN, "Gozod", "Proofs", "C11.lean")).read()
     m = re.search(r"def silentKeywords : List String :=\s*\[([^\]]*)\]", src)
@@ -112,6 +134,11 @@ def run(res):
     if rows is None:
         C.tie_broken(res, "translator C11/KeywordTable", err)
         return res.finish()
+    reads, err = extract_reads(res)
+    if reads is None:
+        C.tie_broken(res, "translator C11/FromReads", err)
+        return res.finish()
+    res.coverage["from_go_keyword_reads"] = {r["func"]: r["reads"] for r in reads if r["reads"]}
     ok, detail = C.prove(res, MODULES, THEOREMS)
     if not ok:
         # a proof over the regenerated table stopped checking: look for the falsifying cells
